@@ -198,6 +198,26 @@ def _(line):
     return _subs(line, r'\bedge\.1\b', 'edge.0', 2) + _subs(line, r'\bedge\.0\b', 'edge.1', 2) + _subs(line, r'\bnode\.clone\(\)', 'self.root.clone()', 1) + _subs(line, r'\bself\.root\b', 'node', 1)
 
 
+@op('idx-shift')
+def _(line):
+    return _subs(line, r'\.get\((\w[\w\.\(\)]*)\)', r'.get(\1 + 1)', 2) + _subs(line, r'\[0\]', '[1]', 1) + _subs(line, r'\.len\(\)(?! [-+] 1)', '.len() - 1', 1) + \
+        _subs(line, r'\.first\(\)', '.get(1)', 1) + _subs(line, r'\.pop\(\)', '.first().cloned()', 1)
+
+
+@op('loop-once')
+def _(line):
+    # the closing brace of a loop body cannot be recognised line-wise; instead make the loop header iterate at most once
+    m = re.match(r'^(\s*for .+ in )(.+?)( \{\s*)$', line)
+    if m and '.take(' not in m.group(2):
+        return [m.group(1) + '(' + m.group(2) + ').into_iter().take(1)' + m.group(3)]
+    return []
+
+
+@op('ret-swap')
+def _(line):
+    return _subs(line, r'\bOk\(\(\)\)', 'Err(Error::EdgeNotFound)', 1) + _subs(line, r'\bErr\(Error::EdgeAlreadyExists\)', 'Ok(())', 1) + _subs(line, r'\bErr\(Error::EdgeNotFound\)', 'Err(Error::EdgeAlreadyExists)', 2)
+
+
 def code_lines(path):
     """(lineno, text) of mutable code lines: not comments, not doc comments, not attributes, not inside #[cfg(test)]"""
     out = []
